@@ -64,7 +64,7 @@ CLAIMED = {
    text="Decides `never panics` for the hand-written parser: every panic source reachable from parse()/parse_with_warnings() (panic!/unreachable!/assert!, unwrap/expect, Assert terminators, integer +, from_str_radix) is shown unreachable or guarded for every pair tree the grammar can produce, re-derived from gsd.pest and the MIR on each run. Of `reproduces what the file says` it decides structural necessary conditions only: extended prm data is never overwritten by the legacy commit, <rate>_supp / MaxTsdr_<rate> keywords reach the matching flag / field, keywords recognised in code are compared case-insensitively, long-line markers are removed from string literals for LF and CR LF (when the cleaning code has the recognised replace-chain shape). Field-by-field equality with the file text is not decided.",
    note="Trusted: " + TB + "; pest_meta parser/optimizer (engines/pestshape); conformance of the pest runtime and pest_derive output to the grammar (generated code checked free of panic sites); std functions outside analysis/panics.py:MAY_PANIC_EXTERN do not panic.", ref="§4-C19"),
  "C20": dict(level="other", technique="static analysis: sibling-arm table extraction (conversion target, width, endianness), dependency check of bit-field stores on the previous byte, must-guard and per-path/per-iteration counters for check-before-write over the rustc MIR of gsd-parser",
-   text="Decides the per-type encoding table (signed types through their signed type, big-endian, widths, size()), the read-modify-write dependency and range guards of bit fields, that nothing is written on a path returning an error, that the declared constraint is checked before the write, that names/texts are resolved before any write and that every default is written unconditionally. One recorded known finding (BitArea overwrites the whole byte; its repair would change a pinned snapshot). The overlay over whole layouts as a value relation is not decided. The enumeration constraint is an order-independent membership test.",
+   text="Decides the per-type encoding table (signed types through their signed type, big-endian, widths, size()), the read-modify-write dependency and range guards of bit fields, that nothing is written on a path returning an error, that the declared constraint is checked before the write, that names/texts are resolved before any write and that every default is written unconditionally. One recorded known finding (BitArea overwrites the whole byte; its repair would change a pinned snapshot). The overlay over whole layouts as a value relation is not decided. The enumeration constraint is an order-independent membership test. The block sizing helper leaves at least offset + size bytes on every path.",
    note="Trusted: " + TB + ".", ref="§4-C20"),
 }
 
